@@ -20,7 +20,7 @@
 (***************************************************************************)
 EXTENDS Derive
 
-CONSTANTS Mode, Tier, IntoMode
+CONSTANTS Mode, Tier, IntoMode, EncMode
 
 Attrs == {"none", "skip", "compact", "encoded_as"}
 Fields == { [ty |-> t, attr |-> a] : t \in {"u8", "u32", "vecu8", "optu16", "gen", "vecgen"}, a \in {"none", "skip"} }
@@ -65,6 +65,9 @@ TranspDefs == { [kind |-> "struct", shape |-> "named", transparent |-> TRUE, fs 
                   fs \in { <<d>> : d \in DataFields } \cup { <<d, z>> : d \in DataFields, z \in ZstFields }
                         \cup { <<z, d>> : d \in DataFields, z \in ZstFields } \cup { <<z>> : z \in ZstFields } }
 ASSUME \A d \in TranspDefs : FastPathSound(IntoMode, d)
+\* every field form goes out in its selected representation on the multi-field encode path
+ASSUME \A t \in {"u8", "u32", "u64"} : \A a \in {"none", "compact", "encoded_as", "encoded_as_wide"} :
+          EncArmsSound(EncMode, [ty |-> t, attr |-> a])
 
 VARIABLES def, v, stage
 vars == <<def, v, stage>>
